@@ -299,6 +299,11 @@ def grammar_cases(tier):
                                         continue
                                     out.append(dict(kind="grammar", sizes=list(sizes), k=k, sA=sA, mA=mA, bA=bA, sB=sB, bB=bB,
                                                     ret=list(ret)))
+    # the input series itself is a factor of a declared product / used directly, and is given as data only
+    for bA, bB in (("a1", "b9"), ("a11", "b1"), ("a11", "b9"), ("a2", "b8"), ("a7", "b9")):
+        for sA in (0, 1):
+            for ret in RETURNS:
+                out.append(dict(kind="grammar", sizes=[1, 2], k=1, sA=sA, mA=None, bA=bA, sB=0, bB=bB, ret=list(ret), Hdata=True))
     # the same function name defined again with a different body (notebook cell re-run, importlib.reload):
     # every compilation must follow the definition it is given
     for bA, bB, pA, pB in (("a2", "b3", "a1", "b1"), ("a1", "b1", "a2", "b3"), ("a7", "b5", "a5", "b2"), ("a3", "b4", "a4", "b6")):
@@ -396,6 +401,11 @@ def run_grammar(case):
     try:
         for sname, sched in schedules:
             H = BlockSeries(eval=lambda *idx: Hv(idx), shape=(nb, nb), n_infinite=k, name="H")
+            given = None
+            if case.get("Hdata"):
+                # a data-only input series (nothing can be recomputed): the caller's elements must survive
+                given = {idx: Hv(idx) for idx in itertools.product(range(nb), range(nb), *[range(b + 1) for b in bound])}
+                H = BlockSeries(data=given, shape=(nb, nb), n_infinite=k, name="H")
             try:
                 series, _ = series_computation({"H": H}, algorithm=func, scope=dict(scope))
             except Exception as e:  # noqa: BLE001
@@ -426,6 +436,10 @@ def run_grammar(case):
                     V.append(f"{name}{list(idx)} differs from the direct interpretation of its definition (schedule {sname})")
                 elif sum(idx[2:]) >= 2 and r[1] is not zero and r[1] is not one:
                     nontrivial = True
+            if given is not None:
+                lost = [idx for idx, v in given.items() if H._data.get(idx) is not v]
+                if lost:
+                    V.append(f"elements {lost[:3]} of the caller's input series were removed or replaced (schedule {sname})")
             if len(V) > 6:
                 break
     finally:
